@@ -299,8 +299,9 @@ def cancel_flag_then_crash(sig, ctx) -> bool:
     for e in tr["events"]:      # killed with the flag set, the CancelWorkflow message still queued, nothing fanned out yet
         if e["e"] == "crash":
             c = e["s"]
+            left = {k for k, v in st.items() if v.get("status") == "NOT_STARTED"}      # (a CancelStage of another stage may be
             if c["wf"].get("canceled") and any(m["typ"] == "CancelWorkflow" for m in c["q"]) \
-                    and not any(m["typ"] == "CancelStage" for m in c["q"]):
+                    and not any(m["typ"] == "CancelStage" and m["s"] in left for m in c["q"]):   # there: a failed stage cancels itself)
                 return True
     return False
 
